@@ -763,6 +763,11 @@ func (h *H[T]) C19(rc *runCtx) *Violation {
 		}
 	}
 	if at, ok := sameSnap(seq.final, conc.final); !ok {
+		if at < 0 {
+			return violf("differs-from-sequential",
+				"the full-capacity view of the shared storage (Slice(0, Capacity) of the backing buffer, taken after all tasks have ended) has %d samples after the concurrent execution and %d after the sequential one (0: taking it panicked)",
+				len(conc.final), len(seq.final))
+		}
 		return violf("differs-from-sequential",
 			"final contents of the shared storage differ from the sequential execution at interleaved position %d of the backing buffer (%d channels; shared window starts at frame %d)",
 			at, p.c, p.winStart)
